@@ -7,6 +7,7 @@ import sys
 from datetime import timedelta
 
 from . import common
+from . import c16_lookalikes as LA
 from .common import Check, sx
 from .evutil import BASE, dt, mk_event, pulse_us, us_of_dt, us_of_td
 
@@ -14,6 +15,11 @@ RULE = ("boundary corpus (all lists of <= 3 events over a 7-letter data alphabet
         "equal values under different keys, x every key list over {a,b,c} of length 0..2 incl. repeats; all tie "
         "patterns of 0..4 timestamps/durations; every count in -6..6; every vals subset) then seeded random cases "
         "(0..8 events, key lists of length 0..3, unsorted timestamps, negative/zero durations, 1/1.0/True mixes); "
+        "look-alike corpus (round 2): every base value next to every domain value that a serialisation / normalisation / "
+        "sort / set / hash / truncation / join of it would conflate with it (json/repr/str of the value and of its tuple "
+        "form, 1 / '1' / 1.0 / True / [1] / '[1]', case, whitespace, unicode forms), and every data dict next to the "
+        "dicts whose (key, value) pairs spell the same text / flatten to the same sequence; the random pools draw "
+        "such companions for the values and dicts they hold; "
         "non-trivial = distinct canonical case in which the function had something to decide (two events in one "
         "group or a key missing somewhere; a tie in the sort key; a count that cuts; a predicate both true and false)")
 
@@ -30,18 +36,23 @@ PULSES = [5.0, 0, 1, 0.5, 2.5, 1e-6, 0.0000005, 60, -1]
 
 
 class Lab:
-    """key strings -> integers; values -> one integer per Python-== class of the
-    hashable-ised value (a list is labelled through its tuple form, as the code does)."""
+    """key strings -> integers; values -> one integer per Python ==/hash class of the
+    hashable-ised value (a list is labelled through its tuple form).  The classes are those of a Python
+    dict keyed by the value itself (tuple(v) for a list, v otherwise) - nothing is serialised, normalised
+    or coerced on the way, so "x", ["x"], '["x"]', "('x',)" are four labels and 1, 1.0, True are one.
+    Domain: str / int / float (no NaN) / bool / None / flat lists of those."""
 
     def __init__(self):
         self.keys = {}
-        self.vals = common.Labels()
+        self.vals = {}
 
     def k(self, s):
         return self.keys.setdefault(s, len(self.keys))
 
     def v(self, x):
-        return self.vals.label(tuple(x) if isinstance(x, list) else x)
+        if not LA.in_domain(x):
+            raise ValueError(f"value outside the label domain: {x!r}")
+        return self.vals.setdefault(tuple(x) if type(x) is list else x, len(self.vals))
 
     def d(self, data):
         return [[self.k(k), self.v(v)] for k, v in data.items()]
@@ -114,6 +125,35 @@ def gen_boundary(maxlen=3):
             yield ("concat", evs, [ev4(j * S, 2 * S, {"i": -j}) for j in range(m)])
 
 
+def gen_lookalikes():
+    """Round 2.  Every base value v next to each of its look-alikes w (harness/c16_lookalikes.py): the two are
+    different values of the domain (or the same value under another type), so the statement tells exactly which
+    events share a group / a run / a side of the filter; and every base dict next to the dicts whose composite
+    key would coincide under a textual / flattened / unordered composite key."""
+    for v in LA.BASE_VALUES:
+        for w in LA.lookalikes(v):
+            c = copy.deepcopy
+            evs = [ev4(0, S, {"a": c(v)}), ev4(S, 2 * S, {"a": c(w)}), ev4(2 * S, 4 * S, {"a": c(v), "b": 1}),
+                   ev4(3 * S, 8 * S, {"a": c(w)})]
+            yield ("merge", ["a"], evs)
+            yield ("merge", ["b", "a"], [ev4(0, S, {"a": c(v), "b": c(w)}), ev4(S, 2 * S, {"a": c(w), "b": c(v)}),
+                                          ev4(2 * S, 4 * S, {"b": c(v), "a": c(v)}), ev4(3 * S, 8 * S, {"b": c(w), "a": c(v)}),
+                                          ev4(4 * S, 16 * S, {"b": c(w)}), ev4(5 * S, 32 * S, {"a": c(w)})])
+            yield ("chunk", "a", 5.0, [ev4(0, S, {"a": c(v)}), ev4(S, 2 * S, {"a": c(w)}), ev4(2 * S, 4 * S, {"a": c(w)}),
+                                       ev4(3 * S, 8 * S, {"a": c(v)})])
+            yield ("filter", "a", [c(v)], False, evs)
+            yield ("filter", "a", [c(w), 7], True, evs)
+    for d, ks in LA.BASE_DATAS:
+        comps = LA.composite_lookalikes(d, ks)
+        for j, comp in enumerate(comps):
+            evs = [ev4(0, S, d), ev4(S, 2 * S, comp), ev4(2 * S, 4 * S, d), ev4(3 * S, 8 * S, comp)]
+            yield ("merge", ks, evs)
+            if j % 4 == 0:
+                yield ("merge", list(reversed(ks)), evs)
+        # all companions of one dict in one call
+        yield ("merge", ks, [ev4(j * S, (1 << j) * S, x) for j, x in enumerate([d] + comps[:20])])
+
+
 def rand_data(rng, pool):
     d = {}
     ks = list(KEYS)
@@ -127,6 +167,10 @@ def rand_data(rng, pool):
 def rand_events(rng, nmax=8):
     n = rng.choice([0, 1, 2, 2, 3, 3, 4, 5, 6, 7, 8][:nmax + 3])
     pool = rng.sample(VALUES, rng.choice([1, 2, 2, 3, 4]))
+    if rng.random() < 0.5:      # round 2: look-alikes of the values already in the pool
+        for v in rng.sample(pool, rng.choice([1, 1, 2][:len(pool)])):
+            la = LA.lookalikes(v)
+            pool = pool + rng.sample(la, min(len(la), rng.choice([1, 1, 2, 3])))
     unit = rng.choice([S, S, 1000, 500_000])
     evs = []
     t = 0
@@ -151,6 +195,12 @@ def gen_random(rng, n):
                            "concat", "filter", "filter"])
         if kind == "merge":
             ks = [rng.choice(KEYS + ["zz"]) for _ in range(rng.choice([0, 1, 1, 2, 2, 2, 3, 3]))]
+            if evs and ks and rng.random() < 0.3:      # round 2: composite-key look-alikes of an event of the list
+                src = rng.choice(evs)
+                comps = LA.composite_lookalikes(src[2], ks)
+                for comp in rng.sample(comps, min(len(comps), rng.choice([1, 1, 2]))):
+                    j = rng.randrange(0, len(evs) + 1)
+                    evs = evs[:j] + [ev4(rng.choice([0, 1, 5, 9]) * S, rng.choice([0, 1, 3]) * S + 1, comp)] + evs[j:]
             yield ("merge", ks, evs)
         elif kind == "chunk":
             yield ("chunk", rng.choice(KEYS), rng.choice(PULSES), evs)
@@ -406,7 +456,9 @@ def main(argv=None):
     have_driver = ck.driver()
 
     n_rand = 6000 if ck.tier == "quick" else 400000
-    cases = list(gen_boundary(3 if ck.tier == "quick" else 4)) + list(gen_random(ck.rng, n_rand))
+    la_cases = list(gen_lookalikes())
+    ck.coverage["lookalike_corpus_cases"] = len(la_cases)
+    cases = list(gen_boundary(3 if ck.tier == "quick" else 4)) + la_cases + list(gen_random(ck.rng, n_rand))
     lab = Lab()
     wires, impls = [], []
     sampled = set()
@@ -451,7 +503,8 @@ def main(argv=None):
                                                        "sort_by_duration", "limit_events", "concat"]}
     ck.assumptions += [
         "key strings enter the model as integer labels; values as one label per Python-== class of the hashable-ised "
-        "value (list -> tuple, as the code does); values are str/int/float/bool/None/flat lists of those",
+        "value (list -> tuple; the classes of a Python dict keyed by the value itself); values are "
+        "str/int/float (no NaN)/bool/None/flat lists of those",
         "pulsetime enters the model as the integer microseconds Python's timedelta(seconds=p) yields",
         "chunk_events_by_key: key != 'subevents' (the chunk's own data key) is the model's domain; probed separately",
         "sum_durations: the model is the exact integer sum; the code's float route is compared within 1 us "
